@@ -67,5 +67,28 @@ def run(ctx):
         uni.paramset(ps)
         sides = allsides if thorough else some + [bytes([ctx.rng.randrange(256)]) for _ in range(2)]
         traces += side_traces(uni, mp, g, ps, sides, "shipped", ctx.rng)
-    # empty message without any body and side byte alone
+    # two things wrong at once: a wrong label in front of a body of the WRONG WIDTH (bare side byte, truncated, extended,
+    # the width of another group): the label decides (OffSides for A/B labels), whatever the body looks like
+    for ps, g in [("Pi23", "i23"), ("Ped37", "ed37"), ("PEd25519", "Ed25519"), ("P1024", "I1024")]:
+        G = uni.group(g)
+        q = G.order()
+        valid = G.Base.scalarmult(3 % q or 1).to_bytes()
+        bodies = [b"", valid[:-1], valid + b"\x00", valid[:1], valid + valid, b"\x00" * 33, b"\x01" * 129]
+        for cls in ("A", "B", "S"):
+            for restored in (False, True):
+                r = Run("wrong-label-wrong-width/%s/%s/%s" % (g, cls, "restored" if restored else "fresh"), uni)
+                n = 0
+                for sb in (b"A", b"B", b"S", b"C"):
+                    for body in bodies:
+                        n += 1
+                        v = "v%d" % n
+                        r.new(v, cls, ps, b"pw", b"idA", b"idB" if cls != "S" else b"")
+                        r.start(v, mp.stream_for(g, 5 % q))
+                        who = v
+                        if restored:
+                            blob = r.serialize(v)
+                            if blob is not None and r.restore(v + "r", cls, ps, blob) is not None:
+                                who = v + "r"
+                        r.finish(who, sb + body)
+                traces.append(r.json())
     ctx.validate(traces, uni, what="side/reflection")
